@@ -59,11 +59,10 @@ pub fn c11_reverse_rank_3() { rank(3) }
 
 /// proportional weights: None iff empty or infinite; otherwise w_i >= offset and a better objective never gets a
 /// smaller weight
-fn weights(n: usize, normalize: bool) {
+fn weights(n: usize, normalize: bool, offset: f64) {
+    // the offset is concrete per call (0 and a positive value): a third symbolic float makes the harness 5x slower
     let pop = sym_population(n);
     for x in pop.iter() { assume(x.objective().value().abs() <= 1.0e6 || x.objective().value() == f64::INFINITY); }
-    let offset: f64 = sym();
-    assume(offset >= 0.0 && offset <= 1.0e3);
     let mut any_inf = false;
     for x in pop.iter() { any_inf = any_inf || !x.objective().is_finite(); }
     match proportional_weights(&pop, offset, normalize) {
@@ -83,15 +82,18 @@ fn weights(n: usize, normalize: bool) {
         }
     }
 }
-/// @verif anchor=proportional_weights bound="population size 2; |objective| <= 1e6 or +inf; offset in [0, 1e3]; not normalised"
+/// @verif anchor=proportional_weights bound="population size 2; |objective| <= 1e6 or +inf; offset 0; not normalised"
 #[cfg_attr(kani, kani::proof)] #[cfg_attr(kani, kani::unwind(6))]
-pub fn c11_weights_2() { weights(2, false) }
+pub fn c11_weights_2() { weights(2, false, 0.0) }
+/// @verif anchor=proportional_weights tier=thorough bound="population size 2; offset 0.5; not normalised"
+#[cfg_attr(kani, kani::proof)] #[cfg_attr(kani, kani::unwind(6))]
+pub fn c11_weights_2_offset() { weights(2, false, 0.5) }
 /// @verif anchor=proportional_weights tier=thorough bound="population size 2; normalised"
 #[cfg_attr(kani, kani::proof)] #[cfg_attr(kani, kani::unwind(6))]
-pub fn c11_weights_2_normalized() { weights(2, true) }
+pub fn c11_weights_2_normalized() { weights(2, true, 0.0) }
 /// @verif anchor=proportional_weights tier=thorough bound="population size 3; not normalised"
 #[cfg_attr(kani, kani::proof)] #[cfg_attr(kani, kani::unwind(7))]
-pub fn c11_weights_3() { weights(3, false) }
+pub fn c11_weights_3() { weights(3, false, 0.0) }
 
 /// All / None: everything / nothing, as references into the source population
 /// @verif anchor=All::select bound="population size 2"
